@@ -55,6 +55,8 @@ def build():
         return args[0]
 
     def n_factor_values(eng, args, kw, n, st):
+        if set(kw) - {"kind", "spans_intercept", "drop_field", "format", "encoded"}:        # metadata of the wrapper: dropped by the model
+            raise OutOfSubset(n, "FactorValues(...) with an unknown option")
         return args[0]
 
     def bool_astype(eng, args, kw, n, st):
